@@ -542,6 +542,7 @@ func main() {
 	replay := flag.String("replay", "", "replay file")
 	maxSess := flag.Int("sessions", 6, "max sessions per history")
 	exhLen := flag.Int("len", 4, "mode exh: maximal history length")
+	exhXLen := flag.Int("xlen", 0, "mode exh: maximal history length of the one-pid scope (0 = len+1)")
 	exhCoq := flag.Int("coq", 1500, "mode exh: at most this many histories are replayed against the Coq model")
 	flag.Parse()
 	seed := hutil.SeedFromEnv()
@@ -549,7 +550,7 @@ func main() {
 		os.Exit(doReplay(*replay, *prop))
 	}
 	if *mode == "exh" {
-		exhMain(*out, *prop, *exhLen, *exhCoq, seed)
+		exhMain(*out, *prop, *exhLen, *exhXLen, *exhCoq, seed)
 		return
 	}
 	if *mode == "conc" {
@@ -682,19 +683,27 @@ type family struct {
 func familiesFor(prop string) []family {
 	pending := family{"pending", func(r *hutil.Rand) History { return genPending(r, false) }, 1, 5, true}
 	pendingBig := family{"pending-big", func(r *hutil.Rand) History { return genPending(r, true) }, 1, 2, false}
+	relogin := family{"relogin", genRelogin, 1, 4, true}
+	overtake := family{"overtake", genOvertake, 1, 3, true}
 	switch prop {
 	case "C01", "C02":
 		return []family{pending, pendingBig}
-	case "C04", "C09", "C16", "C14":
+	case "C04", "C14":
 		return []family{pending}
+	case "C09":
+		return []family{pending, overtake}
+	case "C16":
+		return []family{pending, relogin}
 	}
-	return []family{pending, pendingBig}
+	return []family{pending, pendingBig, relogin, overtake}
 }
 
 func ruleText(prop string) string {
 	return "histories generated per mode (wf: unique pids/sessions; reuse: chains of sessions sharing a PID; mixed: plus cron/console/su-like sessions and records without session; " +
 		"cleanup: cleanup calls with cut-offs at earlier time boundaries; faults: invalid logins, unparsable PIDs, write budget), 1-6 sessions interleaved in bursts, login at a random split point of its session; " +
 		"every record carries a kernel serial (per history: all zero, increasing, all equal, decreasing, wrapping through 2^32, late lower-numbered records, arbitrary), a timestamp of its own (2023, around / before / after the wall clock, descending) and the other fields the coalescer delivers (old-ses, old-auid, auid, tty, terminal, ppid, exe, addr, acct) with values naming OTHER sessions, pids and users of the history - none of which the properties mention; " +
+		"family relogin (C16): a pid logs in 2-3 times before its LOGIN record, cleanup cut-offs between the log times of an earlier and the last login (the last must stay waiting; its session is correlated); " +
+		"family overtake (C09): chains of sessions opened by one re-used pid, the new login anywhere after the previous login and LOGIN record - before, between and after the ended session's last records; " +
 		"family pending: 2-4 sessions waiting for their logins at the same time, each holding 0-12 events (pending-big: up to 40 and the sizes at which a slice grows; judged by the oracle only), opened in any order, filled in turns or one after the other, logins in any order; " +
 		"every call is followed by a dump of the correlator state (per-step simulation against the model) and the " + prop + " oracle runs on the emitted events; " +
 		"non-trivial = at least 2 sessions open at once and at least one hold-queue flush; distinct by op sequence"
